@@ -89,12 +89,17 @@ def check_props(pid, timeout=900):
 # source of the tree under test (harness/translate.py) and proved equal to the model (Tie/IntgTie.v)
 INTG = ["tie_intg_rk", "tie_intg_expl_euler", "tie_discrete_system"]
 DC = ["tie_dc_dt", "tie_dc_t_root", "tie_dc_Pidot", "tie_dc_sys_args", "tie_dc_quad", "tie_dc_x_next", "tie_dc_cont_lhs"]
+SMP = ["tie_get_DT_control_at", "tie_get_DT_at", "tie_offset_target", "tie_offset_ok", "tie_env_control", "tie_env_inner",
+       "tie_env_integrator", "tie_env_root"]
 TIED = {"C01": {"Intg": INTG},
+        "C04": {"Smp": SMP},
+        "C07": {"Smp": SMP},
+        "C09": {"Smp": ["tie_env_control", "tie_env_inner", "tie_env_integrator", "tie_env_root"]},
         "C02": {"Dc": DC},
         "C03": {"Intg": INTG + ["tie_builtin"], "Dc": DC},
         "C05": {"Intg": INTG, "Dc": ["tie_dc_dt", "tie_dc_t_root", "tie_dc_sys_args", "tie_dc_quad"]},
         "C08": {"Intg": ["tie_intg_rk", "tie_intg_expl_euler"]}}
-TIE_SRC = {"Intg": "rockit/sampling_method.py", "Dc": "rockit/direct_collocation.py"}
+TIE_SRC = {"Intg": "rockit/sampling_method.py", "Dc": "rockit/direct_collocation.py", "Smp": "rockit/sampling_method.py"}
 
 
 def check_ties(pid):
